@@ -2,7 +2,9 @@
 from __future__ import annotations
 from harness.core import Task
 from harness import loader
-from contracts import scanners, rx_lex
+import time
+from harness.core import Task, OR, PROVED, REFUTED
+from contracts import scanners, rx_lex, readerblocks
 from contracts.common import *
 
 PROP = "C02"
@@ -11,7 +13,28 @@ MARKERS = ["!", ">", "*", "|", "<", "#", "!>", "doc"]
 
 def build(tier, seed):
     set_tier(tier)
-    tasks = [a_task(PROP, scanners.unterminated), a_task(PROP, scanners.quote_split)]
+    def _cont():
+        from bounded import c02
+        c = readerblocks.continuation(PROP)
+        c.search_fn = lambda: c02.search(seed)
+        return c
+    _cont.__name__ = "continuation_block"
+    tasks = [a_task(PROP, scanners.unterminated), a_task(PROP, scanners.quote_split), a_task(PROP, _cont)]
+
+    def bd():
+        from bounded import c02
+        t0 = time.time()
+        hit = c02.search(seed)
+        n, valid = c02.count_cases(seed)
+        r = OR(id=f"{PROP}.Bd.reader.line_sequences", status=REFUTED if hit else PROVED, kind="Bd", role="bounded", target="ford.reader.FortranReader (real)",
+               desc="statement stream of the real reader vs executable free-form assembly rules (comment stripping with the literal state carried across "
+                    "continuation lines, leading/trailing '&', comment and blank lines in between, ';' splitting)",
+               bound=f"all sequences of <= 3 lines over {len(c02.LINES)} line kinds + 400 seeded random sequences of 5 lines: {n} sequences, {valid} valid free-form",
+               cases=valid, seconds=time.time() - t0, backend="enumeration")
+        if hit:
+            r.replay, r.witness = hit, hit["input"]
+        return [r]
+    tasks.append(Task(f"{PROP}.Bd.reader", PROP, "reader", bd))
 
     def com_re():
         rd = loader.import_repo("ford.reader")
@@ -26,7 +49,9 @@ def build(tier, seed):
     meta = {
         "trusted_base": TRUSTED_BASE,
         "assumptions": PYVC_ASSUMPTIONS + REVC_ASSUMPTIONS,
-        "functions_under_contract": fn_meta([("ford.reader", "_contains_unterminated_string", None), ("ford.utils", "quote_split", None)]) +
+        "functions_under_contract": fn_meta([("ford.reader", "_contains_unterminated_string", None), ("ford.utils", "quote_split", None),
+                                             ("ford.reader", "FortranReader.__next__", "block contract: `if len(line) == 0:` ... `linebuffer += line` inside `while not done` "
+                                              "(continuation joining); inputs line (stripped), continued, linebuffer")]) +
         [{"constant": "ford.reader.FortranReader.COM_RE"}, {"constant": f"ford.reader._compile_docmark(m) for m in {MARKERS}"},
          {"constant": "ford.sourceform.QUOTES_RE"}],
         "unverified_surroundings": ["FortranReader.__next__ as a whole (composition of its blocks)", "include handling", "preprocessor",
